@@ -658,20 +658,24 @@ def fast_case(kind, regs, ov, stop, at=-1, ints=0, mark=None):
             with open(mark, 'w') as f:
                 f.write(repr((name, kind, regs, ov, stop, ints)))
 
+        limit = 0.5 if ints else 5            # CPU seconds of this process (not wall time: the machine may be busy)
+
         def over(*a):
-            raise TimeoutError('run(start, stop) still running after %d s' % (3 if ints else 10))
-        old = signal.signal(signal.SIGALRM, over)
-        signal.alarm(3 if ints else 10)
+            raise TimeoutError('run(start, stop) still running after %s s of CPU time' % limit)
+        old = signal.signal(signal.SIGVTALRM, over)
+        signal.setitimer(signal.ITIMER_VIRTUAL, limit)
         try:
             sim.run(regs[PC], stop, bool(ints))
         except Exception as e:
             exc = '%s: %s' % (type(e).__name__, e)
         finally:
-            signal.alarm(0)
-            signal.signal(signal.SIGALRM, old)
+            signal.setitimer(signal.ITIMER_VIRTUAL, 0)
+            signal.signal(signal.SIGVTALRM, old)
         cur = bytes(sim.memory)
         wr = [[a, cur[a]] for a in range(65536) if cur[a] != ref[a]] if cur != ref else []
         obs.append({'impl': name, 'r': [int(v) for v in sim.registers], 'wr': wr, 'exc': exc})
+    if all(o['exc'].startswith('TimeoutError') for o in obs):
+        return None                       # a program that never reaches its stop address on any implementation
     own = 1 if at >= 0 and any(a in (at, (at + 1) % 65536) for a, v in obs[1]['wr']) else 0
     return {'kind': kind, 'r0': regs, 'ov0': ov, 'stop': stop, 'max': FAST_MAX, 'steps': steps, 'frame': FRAME48, 'ia': IA48,
             'inv': 255, 'obs': obs, 'at': at, 'own': own, 'ints': ints}
